@@ -241,7 +241,60 @@ func raceScenarios() []raceScenario {
 			return cl
 		},
 		bodies: rep(3, func(st interface{}) interface{} { return fmt.Sprint(st.(*gmtls.Conn).Handshake()) })})
+	// one server configuration serving simultaneous handshakes through GetConfigForClient, each
+	// connection on a Clone(): what the clones still share (the key-log writer, the ticket keys, the
+	// certificates) must stay serialised. The writer is deliberately not safe for concurrent use.
+	for _, gm := range []bool{true, false} {
+		gm := gm
+		name := "keylog-through-GetConfigForClient-clones/TLS1.2"
+		if gm {
+			name = "keylog-through-GetConfigForClient-clones/GMSSL"
+		}
+		type world struct {
+			outer *gmtls.Config
+			ccfg  *gmtls.Config
+			log   *plainLog
+		}
+		rs = append(rs, raceScenario{name: name, rounds: 6, sameAsSolo: false,
+			setup: func() interface{} {
+				p := tlsk.Get()
+				c, s := gmConfigs()
+				if !gm {
+					s = &gmtls.Config{Certificates: []gmtls.Certificate{p.ECDSA}, Time: tlsk.FixedTime}
+					c = &gmtls.Config{RootCAs: p.StdRootsG, ServerName: tlsk.ServerName, Time: tlsk.FixedTime, MinVersion: 0x0303, MaxVersion: 0x0303}
+				}
+				w := &world{log: &plainLog{name: name}, ccfg: c}
+				s.KeyLogWriter = w.log
+				inner := s
+				w.outer = &gmtls.Config{GMSupport: s.GMSupport, Time: tlsk.FixedTime, GetConfigForClient: func(*gmtls.ClientHelloInfo) (*gmtls.Config, error) { return inner.Clone(), nil }}
+				return w
+			},
+			bodies: rep(6, func(st interface{}) interface{} {
+				w := st.(*world)
+				_, _, err := gmPair(w.outer, w.ccfg.Clone())
+				return err == nil
+			})})
+	}
 	return rs
+}
+
+// plainLog is an io.Writer that is NOT safe for concurrent use (as a bytes.Buffer or a file wrapper
+// with its own buffering would be) and notices overlapping calls.
+type plainLog struct {
+	name   string
+	inside int
+	lines  [][]byte
+}
+
+func (l *plainLog) Write(p []byte) (int, error) {
+	l.inside++
+	if l.inside != 1 {
+		fmt.Fprintf(os.Stderr, "@@DIFF %s body 0: concurrent %s solo %s\n", l.name, "KeyLogWriter.Write entered while another call was inside", "one call at a time")
+	}
+	l.lines = append(l.lines, append([]byte{}, p...))
+	time.Sleep(200 * time.Microsecond)
+	l.inside--
+	return len(p), nil
 }
 
 func rep(n int, f func(interface{}) interface{}) []func(interface{}) interface{} {
@@ -302,7 +355,7 @@ func RacePassMain() {
 	}
 }
 
-var frameRe = regexp.MustCompile(`^\s+github\.com/tjfoc/gmsm/([^\s(]+)`)
+var frameRe = regexp.MustCompile(`^\s+github\.com/tjfoc/gmsm/(.*?)\([^()]*\)\s*$`)
 
 // raceUnit runs the -race binary (VERIF_RACE_BIN) and turns its reports into violations.
 func raceUnit() harness.Unit {
